@@ -189,7 +189,7 @@ func ValidateParameter(ctx context.Context, input *RequestValidationInput, param
 	}
 
 	// Set default value if needed
-	if !options.SkipSettingDefaults && value == nil && schema != nil {
+	if !options.SkipSettingDefaults && value == nil && !found && schema != nil {
 		value = schema.Default
 		for _, subSchema := range schema.AllOf {
 			if subSchema.Value.Default != nil {
@@ -212,6 +212,8 @@ func ValidateParameter(ctx context.Context, input *RequestValidationInput, param
 				}
 				populateDefaultQueryParameters(q, parameter.Name, value, sm.Explode)
 				req.URL.RawQuery = q.Encode()
+				// the parsed query kept with the input has to show the same parameters
+				input.QueryParams = q
 			case openapi3.ParameterInHeader:
 				req.Header.Add(parameter.Name, formatDefault(value))
 			case openapi3.ParameterInCookie:
